@@ -38,6 +38,18 @@ CHECKS = {
          'induction on tree height gives the property for all trees.'),
    note='Trusted: CPython ast and left-to-right evaluation order. User visitor subclasses are outside the rule.',
    technique='AST structural rules over the visitor double dispatch (exactly-once descend, evaluation order, result forwarding)'),
+ 'C09': dict(level='other', design='DESIGN.md section 5, C09',
+   text=('Effect/ownership analysis over every class whose instances outlive a parse (parsers, specs, argument '
+         'specs, parsing-state deltas, legacy args parsers): no write through self, a local alias, the class object '
+         'or a shared-typed receiver outside the constructor (construction-time memos and classes verified to be '
+         'instantiated per parse excepted); module-level caches follow the memo idiom with a key that covers '
+         'everything the cached value is built from (attribute-level, through self.method calls); mutable defaults '
+         'are never mutated; database mutators only on databases created locally; extended_with/filtered_context '
+         'never write to their source.'),
+   note=('Decides the necessary condition "no write to a shared object during a parse", not equality of parse '
+         'results. Receiver typing of non-self stores uses the repository naming convention; user callbacks and '
+         'custom parser classes are outside the rule.'),
+   technique='AST effect analysis (self/alias/class-level/shared-receiver stores), memo-idiom and cache-key completeness, freshness-depth analysis'),
 }
 
 NOT_YET = {}
